@@ -26,7 +26,7 @@ func VerifC09_Store() {
 	verifrt.Assert(st.InsertRevokedCert(&crlreader.CRLEntry{Issuer: rdn("CN=I1"), RevokedCertificate: rc}) == nil, "insert")
 	probe := serial("probe")
 	isListed := probe.Cmp(listedSerial) == 0
-	fault := verifrt.Choose(4)
+	fault := verifrt.Choose(5)
 	switch fault {
 	case 0: // no fault: baseline
 	case 1: // read error from the database
@@ -51,6 +51,11 @@ func VerifC09_Store() {
 				ms.Map[k] = garbage
 			}
 		}
+	case 4: // the table block of the record was damaged on disk after it had been written
+		if !disk {
+			return
+		}
+		verifrt.DamagedBlocks = true
 	}
 	status, lerr := st.GetCertRevocationStatus(rdn("CN=I1"), probe)
 	switch fault {
@@ -65,6 +70,9 @@ func VerifC09_Store() {
 	case 2:
 		verifrt.Reach("closed-db")
 		verifrt.Assert(lerr != nil, "closed database: lookup reports an error, never 'not revoked'")
+	case 4:
+		verifrt.Reach("damaged-block")
+		verifrt.Assert(lerr != nil, "damaged table block: lookup reports an error, never 'not revoked' (the database must keep verifying block checksums)")
 	case 3:
 		verifrt.Reach("corrupt-record")
 		if isListed {
